@@ -126,6 +126,15 @@ DeliverNested(n, k) ==
   /\ delivered' = delivered + n + k
   /\ UNCHANGED <<scen, appW, appLost>>
 
+\* As Deliver(n) while relaying, where the application's dataReceived, while it is handed these n bytes, makes k more
+\* bytes arrive (it answers over an in-memory or loop-back transport whose peer replies at once): they are the
+\* application's too, after the first n, and none waits for a later segment.
+DeliverReentrant(n, k) ==
+  /\ ~gone /\ n >= 1 /\ k >= 1 /\ delivered + n + k <= Total(scen)
+  /\ st = "relaying" /\ app /\ buf = 0
+  /\ appN' = appN + n + k /\ delivered' = delivered + n + k
+  /\ UNCHANGED <<scen, gone, st, buf, sentReq, app, appW, done, closed, appLost, exc>>
+
 Disconnect ==
   /\ ~gone
   /\ gone' = TRUE
@@ -150,6 +159,7 @@ Next ==
   \/ AppClose
   \/ \E n \in 1..MaxChunk : Deliver(n)
   \/ \E n \in 1..MaxChunk, k \in 1..MaxApp : DeliverNested(n, k)
+  \/ \E n \in 1..MaxApp, k \in 1..MaxApp : DeliverReentrant(n, k)
   \/ Disconnect
   \/ AppWrite /\ appW < 1
 
